@@ -110,3 +110,32 @@ Example c15_hypotheses_met :
   | _ => False
   end.
 Proof. vm_compute. repeat split; reflexivity. Qed.
+
+(* ---- the automaton restored from its own serialised bytes reports the same statistics ---------------
+   (it IS the same automaton: round-trip theorem of C09, no representability hypothesis) *)
+From DV Require Import Model.Ser Proofs.SerProps Proofs.BuildRanges.
+
+Theorem restored_automaton_reports_the_same_statistics :
+  forall (V : Type) (SV : serializable V) (dom : V -> Prop), ser_law SV dom ->
+  forall k nfb (pvs : list (list N * V)),
+    (forall p v, In (p, v) pvs -> dom v) ->
+    (forall (A : bw_automaton V), (forall p v, In (p, v) pvs -> Forall (fun b => b < 256) p) ->
+       bw_build_with_values V k nfb pvs = Ok A ->
+       forall r A' r', bw_deserialize V SV (bw_serialize V SV A ++ r) = Ok (A', r') ->
+         bw_num_states A' = bw_num_states A /\ length (bw_states A') = length (bw_states A)
+         /\ length (bw_outputs A') = length (bw_outputs A))
+    /\ (forall (A : cw_automaton V), (forall p v, In (p, v) pvs -> Forall (fun c => c < 1114112) p) ->
+       cw_build_with_values V k nfb pvs = Ok A ->
+       forall r A' r', cw_deserialize V SV (cw_serialize V SV A ++ r) = Ok (A', r') ->
+         cw_num_states A' = cw_num_states A /\ length (cw_states A') = length (cw_states A)
+         /\ length (cw_outputs A') = length (cw_outputs A) /\ cw_mapper A' = cw_mapper A).
+Proof.
+  intros V SV dom L k nfb pvs Hd. split.
+  - intros A Hb HA r A' r' HD.
+    rewrite (bw_roundtrip_lemma SV dom L A r (bw_build_ranges_lemma V dom k nfb pvs A Hb Hd HA)) in HD.
+    inversion HD; subst. auto.
+  - intros A Hb HA r A' r' HD.
+    rewrite (cw_roundtrip_lemma SV dom L A r (cw_build_ranges_lemma V dom k nfb pvs A Hb Hd HA)) in HD.
+    inversion HD; subst. auto.
+Qed.
+Print Assumptions restored_automaton_reports_the_same_statistics.
